@@ -16,6 +16,7 @@
 #include <unordered_set>
 #include <functional>
 #include <exception>
+#include <atomic>
 #include <signal.h>
 #include <unistd.h>
 #include <fcntl.h>
@@ -123,6 +124,7 @@ struct Recorder {
 	size_t max_distinct = 4000000;
 };
 inline Recorder rec;
+inline std::atomic<uint64_t> g_wd_evaluations{0};
 inline void write_result(bool crashed, const char *crash_kind);
 inline uint64_t g_cases_after_violation = 0;
 
@@ -131,6 +133,7 @@ inline void begin_case(const char *mode, long long idx) {
 	rec.cur_case = idx;
 	rec.cur_detail[0] = 0;
 	rec.evaluations++;
+	g_wd_evaluations.store(rec.evaluations, std::memory_order_relaxed);
 	// once something has been flagged, later cases run on possibly corrupted state: bound the aftermath
 	if(!rec.violations.empty() && ++g_cases_after_violation > 5000) {
 		rec.counters["stopped_early_after_violation"] = 1;
@@ -334,17 +337,27 @@ int in_child(F &&f) {
 
 // Free-running multi-threaded drivers: a wall-clock watchdog whose firing is *inconclusive*, never a violation (logical
 // deadlock/livelock verdicts come from the controlled scheduler). It only keeps a hung run from occupying the runner.
+// The watchdog thread must not touch monitor state that the (possibly still running) driver writes: under ThreadSanitizer
+// that would itself be a data race report. It therefore works from copies taken at start-up and one atomic counter.
+inline char g_wd_json_head[1024];
+inline unsigned g_wd_secs;
+__attribute__((no_sanitize("thread"))) inline void *watchdog_main(void *) {
+	sleep(g_wd_secs);
+	char buf[2048];
+	int n = snprintf(buf, sizeof buf, "%s\"evaluations\":%llu,\"distinct\":0,\"exhaustive\":false,\"rule\":\"\",\"wall_s\":%u,\"crashed\":false,"
+		"\"cur_mode\":\"watchdog\",\"cur_case\":-1,\"cur_detail\":\"\",\"samples\":[],\"counters\":{\"inconclusive_wallclock_watchdog_fired\":1},\"notes\":{},\"violations\":[]}\n",
+		g_wd_json_head, (unsigned long long)g_wd_evaluations.load(std::memory_order_relaxed), g_wd_secs);
+	if(g_crash_path[0]) { int fd = open(g_crash_path, O_WRONLY | O_CREAT | O_TRUNC, 0644); if(fd >= 0) { ssize_t r = write(fd, buf, n); (void)r; close(fd); } }
+	const char m[] = "[verif] wall-clock watchdog fired: this run is inconclusive\n";
+	ssize_t r = write(2, m, sizeof m - 1); (void)r;
+	_exit(0);
+	return nullptr;
+}
 inline void start_inconclusive_watchdog(unsigned seconds) {
 	static pthread_t th;
-	static unsigned secs; secs = seconds;
-	pthread_create(&th, nullptr, [](void *) -> void * {
-		sleep(secs);
-		rec.counters["inconclusive_wallclock_watchdog_fired"] = 1;
-		fprintf(stderr, "[verif] wall-clock watchdog fired in mode=%s case=%lld: run is inconclusive\n", rec.cur_mode, (long long)rec.cur_case);
-		write_result(false, "");
-		_exit(rec.violations.empty() ? 0 : 1);
-		return nullptr;
-	}, nullptr);
+	g_wd_secs = seconds;
+	snprintf(g_wd_json_head, sizeof g_wd_json_head, "{\"driver\":\"%s\",\"tier\":\"%s\",\"seed\":%llu,\"shard\":%u,\"nshards\":%u,", rec.driver.c_str(), opt.tier.c_str(), (unsigned long long)opt.seed, opt.shard, opt.nshards);
+	pthread_create(&th, nullptr, watchdog_main, nullptr);
 	pthread_detach(th);
 }
 
